@@ -204,8 +204,9 @@ void vf_run_case(vf::Ctx& ctx, long idx)
     const int n = (int) (r.coin(0.5) ? r.range(6, 16) : r.range(17, ctx.thorough && !corpus ? 120 : 60));
     // Matrices aligned with the coordinate axes (diagonal, block diagonal, decoupled coordinates) produce exactly zero residual components and hence exactly zero
     // or linearly dependent correction vectors; the library then fills the search space with arbitrary unit vectors (recorded finding): fixed corpus.
-    static const int CLEAN[] = {0, 1, 2, 6}, HARD[] = {3, 4, 5};
-    const int cls = corpus ? HARD[r.range(0, 2)] : CLEAN[r.range(0, 3)];
+    // (class 1, off-diagonal entries of 1e-3, is numerically axis-aligned as well)
+    static const int CLEAN[] = {0, 2, 6}, HARD[] = {3, 4, 5, 1};
+    const int cls = corpus ? HARD[r.range(0, 3)] : CLEAN[r.range(0, 2)];
     std::vector<int> decoupled;
     MatXd A = gen(r, n, cls, decoupled);
     if (idx % 2 == 0)
